@@ -64,6 +64,14 @@ STRENGTHENED = {
     "C11w6-parse-memo-drops-values": "C11: call histories with the same options and other separately given values (C13 already reported it)",
     "C18w6-computed-include-loses-angle": "C18: missing computed include whose macro expands to the angle form (C04 already reported it)",
     "C01w6-right-associative": "C01: a condition with two operators of equal precedence (`A - 1 - 1 == 0`; C02 already reported it)",
+    "C09w7-abspath-before-resolve": "C09: `..` directly after a directory link whose target lies deeper than the link",
+    "C12w7-implicit-options-filtered": "C12: implicit options given in two-token form (`-I /oi -D IMPL2`) on command lines that use the same flags in two-token form",
+    "C13w7-parse-cache-resolved-in-place": "C13: two entries with byte-identical argument lists from two directories (relative file and relative `-I`)",
+    "C13w7-file-fallback-to-root": "C13: an entry whose file spelling exists relative to the root but not relative to its directory",
+    "C15w7-once-key-only-for-links": "C15: `#pragma once` header re-included through a directory link (the header itself is no link)",
+    "C04w7-found-incl-per-platform": "C04: for half of the two-directory search lists the companion command belongs to the same platform (twin translation unit, list reversed; expectation = union) — C08 and C13 already reported it",
+    "C01w7-expansion-skipped-when-nothing-defined": "C01: `!defined A && defined B` (paren-less `defined` followed by operands that decide)",
+    "C01w7-div-by-zero-raises": "C01: guard idiom `A != 0 && 10 / A > 1` (C02 already reported it)",
     "C11-split-fast-path": "C11: backslash-escaped and double-quoted renderings of the command string",
 }
 
